@@ -43,6 +43,7 @@ type Stats struct {
 	SiteCounts  map[string]int
 	Deadlocks   int
 	TapeUsed    int
+	LeftBehind  int
 }
 
 type Sim struct {
@@ -61,6 +62,7 @@ type Sim struct {
 	h     uint64 // running hash of the (site, choice) sequence
 	Trace []string
 	KeepTrace bool
+	LazyDrain bool // do not drain left-behind goroutines at the end of a call (see Call)
 
 	start time.Time
 
@@ -238,7 +240,27 @@ func (s *Sim) Call(f func()) CallResult {
 		s.stepOnce(true)
 	}
 	res.SimEndNs = int64(time.Since(s.start))
-	// drain: release whatever is still parked until nothing is
+	if s.LazyDrain {
+		// goroutines the call left behind (a worker that outlived a timeout) stay parked and
+		// are scheduled, tape permitting, in the middle of later calls: work that continues
+		// after the call has returned. Finish() drains and takes the census at the end.
+		s.Stats.LeftBehind += len(s.parked)
+		res.Panic = pmsg
+		res.StallNs, res.Idle = s.StallNsInCall, s.IdleInCall
+		res.StepsTo = s.Step
+		return res
+	}
+	res.Stranded = s.drainAndCensus()
+	res.Panic = pmsg
+	res.StallNs, res.Idle = s.StallNsInCall, s.IdleInCall
+	res.StepsTo = s.Step
+	return res
+}
+
+// drainAndCensus releases whatever is still parked until nothing is; whatever
+// library goroutine is left then is blocked on something nobody will ever serve
+// (the library has no timer other than Run's own deadline).
+func (s *Sim) drainAndCensus() []string {
 	for guard := 0; guard < 1000000; guard++ {
 		synctest.Wait()
 		s.merge()
@@ -247,13 +269,15 @@ func (s *Sim) Call(f func()) CallResult {
 		}
 		s.stepOnce(false)
 	}
-	// whatever library goroutine is left now is blocked on something nobody will
-	// ever serve (the library has no timer other than Run's own deadline)
-	res.Stranded = census()
-	res.Panic = pmsg
-	res.StallNs, res.Idle = s.StallNsInCall, s.IdleInCall
-	res.StepsTo = s.Step
-	return res
+	return census()
+}
+
+// Finish drains goroutines left behind by lazily drained calls and returns the stranded ones.
+func (s *Sim) Finish() []string {
+	if !s.LazyDrain {
+		return nil
+	}
+	return s.drainAndCensus()
 }
 
 func stack() string {
